@@ -241,6 +241,15 @@ def run(P, R, tier):
             n_entries += 1
             geom.flush(R, 'C14.d', I, seen, f'{cls}.boundary')
             _check_boundary(P, R, site, cls, L, a, v, I.events[ev0:])
+    # the public measure methods run their decorators' wrappers too (memoisation on the object hands one mutable result to all callers)
+    meas = []
+    for mod, cls, L in geom.ARRAYS:
+        ci_ = P.cls(f'{geom.G}{mod}.{cls}')
+        for attr in ('length', 'area', 'boundary'):
+            c2, m2 = P.lookup(ci_, attr)
+            if m2 is not None and m2[0] == 'func' and m2[1] not in meas:
+                meas.append(m2[1])
+    common.decorated_methods(P, R, 'C14.c', meas)
     # scalars
     for mod, cls, L in geom.SCALARS:
         s = geom.scalar(P, mod, cls, L)
